@@ -7,7 +7,7 @@
 (define-syntax letrec*
   (syntax-rules ()
     ((letrec* ((var1 init1) ...) body1 body2 ...)
-     (let ((var1 <undefined>) ...)
+     (let ((var1 #f) ...)
        (set! var1 init1)
        ...
        (let () body1 body2 ...)))))
